@@ -148,6 +148,41 @@ def lossy (bs : Bytes) : Bytes := lossyF false bs
 /-- `LossyUtf8` with `fixes/C17-lossy-truncated.diff`. -/
 def lossyFixed (bs : Bytes) : Bytes := lossyF true bs
 
+/-- `LossyUtf8::next` with one flag per repaired defect, so that the driver can follow whatever the
+probed implementation does (also a half-reverted fix): `fixFinal` = the pending replacement is
+emitted before the emptiness test; `fixTrunc` = `error_len() == None` counts as invalid to the end.
+`nextV b b = next b` (`lossyV_diag`). -/
+def LossyIt.nextV (fixFinal fixTrunc : Bool) (it : LossyIt) : Option (Bytes × LossyIt) :=
+  if !fixFinal && it.bytes.isEmpty then none
+  else if it.inRepl then some (FFFD, { it with inRepl := false })
+  else if it.bytes.isEmpty then none
+  else
+    match fromUtf8 it.bytes with
+    | none => some (it.bytes, { bytes := [], inRepl := false })
+    | some (errorStart, errLen) =>
+      let errLen' : Option Nat :=
+        match errLen with
+        | some l => some l
+        | none => if fixTrunc then some (it.bytes.length - errorStart) else none
+      match errLen' with
+      | some errorLen =>
+        if errorStart > 0 then
+          some (it.bytes.take errorStart, { bytes := it.bytes.drop (errorStart + errorLen), inRepl := true })
+        else
+          some (FFFD, { bytes := it.bytes.drop errorLen, inRepl := false })
+      | none => none
+
+def lossyGoV (fixFinal fixTrunc : Bool) : Nat → LossyIt → Bytes
+  | 0, _ => []
+  | fuel + 1, it =>
+    match it.nextV fixFinal fixTrunc with
+    | none => []
+    | some (piece, it') => piece ++ lossyGoV fixFinal fixTrunc fuel it'
+
+/-- The port selected by the two probes of the real code. -/
+def lossyV (fixFinal fixTrunc : Bool) (bs : Bytes) : Bytes :=
+  lossyGoV fixFinal fixTrunc (2 * bs.length + 3) { bytes := bs }
+
 /-- Spec: replacement-complete lossy decoding (every maximal invalid sequence, a truncated tail
 included, becomes one U+FFFD; valid characters are copied) — `String::from_utf8_lossy`.
 `skip` as in `fromUtf8Aux`. -/
